@@ -417,7 +417,7 @@ func init() {
 			Assumptions: []string{"sync.Pool returns either a value previously Put or the result of New", "user handlers do not retain the *Context after the request (documented contract of pooled contexts)"},
 		},
 		Rules: []ruleFn{
-			{"C10-RESET", ruleC10Reset}, {"C10-FRESH", ruleC10Fresh},
+			{"C10-RESET", ruleC10Reset}, {"C10-FRESH", ruleC10Fresh}, {"C10-PARAMS", ruleC10Params},
 			{"C10-PRISTINE", ruleC10Reslice},
 			{"C10-INIT", ruleC10HandleContext},
 			{"C03-POOL", ruleC03Pool},
@@ -596,6 +596,37 @@ func ruleC10Fresh(r *Run) {
 		}
 		r.Check(rule, construct, w.InstrPos(in), okF, detail)
 	})
+}
+
+// ruleC10Params: the parameter map a request gets from the matcher is nil, a map made for that match, or the map
+// of a cache entry — never a package-level object (a shared "empty params" sentinel): the dispatcher stores it into
+// ctx.Params, handlers may write to it, and Reset cannot take those writes back.
+func ruleC10Params(r *Run) {
+	w := r.W
+	rule := "C10-PARAMS"
+	n := 0
+	for _, name := range []string{"Router.match", "Router.QuickMatch"} {
+		f := w.FnOpt("rux", name)
+		if f == nil {
+			continue
+		}
+		eachInstr(f, func(in ssa.Instruction) {
+			ret, ok := in.(*ssa.Return)
+			if !ok || len(ret.Results) < 2 {
+				return
+			}
+			n++
+			bad := ""
+			for _, lf := range valueLeaves(ret.Results[1]) {
+				if ld, isLd := lf.(*ssa.UnOp); isLd && ld.Op == token.MUL {
+					if g, isG := ld.X.(*ssa.Global); isG {
+						bad = g.Name()
+					}
+				}
+			}
+			r.Check(rule, fmt.Sprintf("%s:params result#%d", FuncName(f), n), w.InstrPos(in), bad == "", map[bool]string{true: "the parameters handed to the request are nil, made for this match, or a cache entry's", false: "the matcher hands the package-level map " + bad + " to the request as its Params: every request on such a route shares one map, what a handler writes into c.Params stays there for all later requests (of every router in the process)"}[bad == ""])
+		})
+	}
 }
 
 // flowsFromDeepNoAppendArgs: like flowsFromDeep, but through append only the base slice (first
